@@ -945,6 +945,43 @@ pub fn scenario_concurrent_moderators(ts_b: u64, ts_c: u64) -> ResolveCase {
     case_from(6, evs, &[&["$c", "$ja", "$jr", "$jb", "$jc", "$pb"], &["$c", "$ja", "$jr", "$jb", "$jc", "$pc"]])
 }
 
+/// A restricted join vouched for by a user who is banned concurrently on the other fork (room versions
+/// 8 to 11): the vouching user's membership must be re-read from the partial state, so the join falls
+/// with the ban (seed4 C07-2).
+pub fn scenario_restricted_join_vs_ban(version: u8, ts_join: u64, ts_ban: u64) -> ResolveCase {
+    let create = format!(r#"{{"creator":"@alice:a","room_version":"{version}"}}"#);
+    let pl = r#"{"users":{"@alice:a":100,"@bob:b":50},"invite":50}"#;
+    let evs = vec![
+        mk("$c", "@alice:a", "m.room.create", "", &create, 1, &[]),
+        mk("$ja", "@alice:a", "m.room.member", "@alice:a", JOIN, 2, &["$c"]),
+        mk("$p1", "@alice:a", "m.room.power_levels", "", pl, 3, &["$c", "$ja"]),
+        mk("$jr0", "@alice:a", "m.room.join_rules", "", r#"{"join_rule":"public"}"#, 4, &["$c", "$ja", "$p1"]),
+        mk("$jb", "@bob:b", "m.room.member", "@bob:b", JOIN, 5, &["$c", "$p1", "$jr0"]),
+        mk(
+            "$jr",
+            "@alice:a",
+            "m.room.join_rules",
+            "",
+            r#"{"join_rule":"restricted","allow":[{"type":"m.room_membership","room_id":"!other:a"}]}"#,
+            6,
+            &["$c", "$ja", "$p1"],
+        ),
+        // fork A: dave joins, vouched for by bob
+        mk(
+            "$jd",
+            "@dave:d",
+            "m.room.member",
+            "@dave:d",
+            r#"{"membership":"join","join_authorised_via_users_server":"@bob:b"}"#,
+            ts_join,
+            &["$c", "$p1", "$jr", "$jb"],
+        ),
+        // fork B: alice bans bob
+        mk("$bb", "@alice:a", "m.room.member", "@bob:b", r#"{"membership":"ban"}"#, ts_ban, &["$c", "$ja", "$p1", "$jb"]),
+    ];
+    case_from(version, evs, &[&["$c", "$ja", "$p1", "$jr", "$jb", "$jd"], &["$c", "$ja", "$p1", "$jr", "$bb"]])
+}
+
 /// One fork has a long history of its own: `n` users were invited and joined there only, so the
 /// auth-chain difference holds `n` invites next to the one event that matters ($p1, which gives
 /// Carol the level her later $p2 needs).  Any bound, cap or batch size applied to an unordered
@@ -1144,6 +1181,9 @@ pub fn run(tier: &str, seed: u64, em: &mut Emitter) {
         for ty in [5u64, 10, 20] {
             emit_resolve(em, "systematic", &scenario_mainline(tx, ty));
             emit_resolve(em, "systematic", &scenario_concurrent_moderators(tx, ty));
+            for v in [8u8, 9, 10, 11] {
+                emit_resolve(em, "systematic", &scenario_restricted_join_vs_ban(v, tx + 10, ty + 10));
+            }
             emit_resolve(em, "systematic", &scenario_chain_through_unconflicted(tx, ty));
         }
     }
